@@ -190,12 +190,14 @@ func (w *Witness) Update(ctx context.Context, logID string, nextRaw []byte, pf [
 		// If there was nothing stored already then treat this new
 		// STH as trust-on-first-use (TOFU).
 		if status.Code(err) == codes.NotFound {
-			if err := w.setSTH(tx, logID, nextRaw); err != nil {
-				return nil, fmt.Errorf("couldn't set TOFU STH: %v", err)
-			}
+			// Sign before storing: an update that cannot be cosigned is
+			// refused and must leave the stored state unchanged.
 			signed, err := w.signSTH(next)
 			if err != nil {
 				return nil, fmt.Errorf("couldn't sign STH: %v", err)
+			}
+			if err := w.setSTH(tx, logID, nextRaw); err != nil {
+				return nil, fmt.Errorf("couldn't set TOFU STH: %v", err)
 			}
 			return signed, nil
 		}
@@ -225,12 +227,12 @@ func (w *Witness) Update(ctx context.Context, logID string, nextRaw []byte, pf [
 	}
 	// If the consistency proof is good we store the raw STH and return the
 	// signed one.
-	if err := w.setSTH(tx, logID, nextRaw); err != nil {
-		return nil, fmt.Errorf("failed to store new STH: %v", err)
-	}
 	signed, err := w.signSTH(next)
 	if err != nil {
 		return nil, fmt.Errorf("failed to sign new STH: %v", err)
+	}
+	if err := w.setSTH(tx, logID, nextRaw); err != nil {
+		return nil, fmt.Errorf("failed to store new STH: %v", err)
 	}
 	return signed, nil
 }
